@@ -25,9 +25,18 @@ func VerifC08Window() {
 	}
 	o := st.(*orbitDBEventLogStore)
 
+	// the listing is in log order: Lamport times are non-decreasing and may TIE
+	// (concurrent writers); the times are symbolic
 	var listing []ipfslog.Entry
+	prev := 1
 	for k := 0; k < n; k++ {
-		listing = append(listing, vstub.MkEntry(k, nil))
+		t := vstub.NdInt("time")
+		vstub.Assume(t >= prev)
+		vstub.Assume(t <= prev+1)
+		prev = t
+		e := vstub.MkEntry(k, nil)
+		e.Clock.Time = t
+		listing = append(listing, e)
 	}
 	if err := o.Index().UpdateIndex(&vstub.ListLog{Entries: listing, ID: "log"}, nil); err != nil {
 		vstub.Fail("C08 UpdateIndex failed")
